@@ -247,13 +247,26 @@ type verifXMLDecoder struct {
 	CharsetReader func(label string, input io.Reader) (io.Reader, error)
 	toks          []xml.Token
 	pos           int
+	real          *xml.Decoder // set when the harness asks for the library's own tokenizer over the input text
 }
 
 var verifXMLTokens []xml.Token
 
-func verifXMLNewDecoder(_ io.Reader) *verifXMLDecoder { return &verifXMLDecoder{toks: verifXMLTokens} }
+// verifXMLReal: hand decodeXML the real encoding/xml decoder (interpreted from its SSA) instead of a token stub.
+var verifXMLReal bool
+
+func verifXMLNewDecoder(r io.Reader) *verifXMLDecoder {
+	if verifXMLReal {
+		return &verifXMLDecoder{real: xml.NewDecoder(r)}
+	}
+	return &verifXMLDecoder{toks: verifXMLTokens}
+}
 
 func (d *verifXMLDecoder) RawToken() (xml.Token, error) {
+	if d.real != nil {
+		d.real.Strict = d.Strict
+		return d.real.RawToken()
+	}
 	if d.pos >= len(d.toks) {
 		return nil, io.EOF
 	}
@@ -261,7 +274,13 @@ func (d *verifXMLDecoder) RawToken() (xml.Token, error) {
 	d.pos++
 	return t, nil
 }
-func (d *verifXMLDecoder) Token() (xml.Token, error) { return d.RawToken() }
+func (d *verifXMLDecoder) Token() (xml.Token, error) {
+	if d.real != nil {
+		d.real.Strict = d.Strict
+		return d.real.Token()
+	}
+	return d.RawToken()
+}
 
 var c11XMLKinds = []string{"start-a", "start-b-attr", "end", "chardata", "blank-chardata", "comment", "procinst", "directive"}
 
